@@ -127,7 +127,10 @@ def check_delete_id(ctx, rule2, rule3):
 
 def cdb(t):
     """canonical spelling of object-table terms: d.get(k) names the same entry as d[k]"""
-    return re.sub(r'self\.db\.get\((\w+)\)', r'self.db[\1]', t or '')
+    t = re.sub(r'self\.db\.get\((\w+)\)', r'self.db[\1]', t or '')
+    # d.setdefault(k, []) is the entry of k, created empty when absent; id lists are never left empty (an object is appended to a
+    # fresh list at once, C02.1/C02.2), so its truthiness says whether k was present
+    return re.sub(r'self\.db\.setdefault\((\w+), \[\]\)', r'self.db[\1]', t)
 
 
 def run(ctx):
